@@ -17,10 +17,16 @@ class UdpWorld:
         self.routes = routes or {}      # other targets that reach hosts: host name or directed broadcast -> [ips]
         self.probes_seen: list = []
         self.bad_probes = 0
+        self.send_error_ports: set = set()   # sendto() to these ports fails locally (firewall rule, no route): the OS error is
+                                             # reported to the protocol's error_received(), as asyncio's datagram transport does
         net.udp_handler = self.on_datagram
 
     def on_datagram(self, tr, data: bytes, addr) -> None:
         target, port = addr
+        if port in self.send_error_ports:
+            if not tr.is_closing():
+                tr._protocol.error_received(OSError(1, "Operation not permitted"))
+            return
         ok = rc.probe_ok(data)
         self.probes_seen.append((self.net.loop.time(), target, port, ok))
         if not ok:
